@@ -51,7 +51,9 @@ pub fn check(ctx: &mut Ctx, doc: &Tree, path: &JPath, text: &str) {
     }
     // the same four selections appended one after the other to the same buffers (a caller
     // collecting rows): each appended part, delimited by its own offsets, is the fresh result
-    if ctx.case_no % 2 == 0 {
+    // (documents of tens of thousands of elements get the plain relations only: the extra passes
+    // multiply their cost without adding kinds of behaviour)
+    if ctx.case_no % 2 == 0 && enc.len() < 100_000 {
         let (mut data, mut offs): (Vec<u8>, Vec<u64>) = (Vec::new(), Vec::new());
         for round in 0..2 {
             for m in 0..4 {
@@ -226,7 +228,8 @@ pub fn run(ctx: &mut Ctx) {
             let style = if rng.chance(1, 4) { refpath::RStyle { spacing: rng.bool(), kwcase: false, quoting: true, esc: true } } else { refpath::PLAIN };
             let text = refpath::render(&path, &style, &mut rng);
             check(ctx, &doc, &path, &text);
-            if round == 0 && matches!(path, JPath::Steps(_)) {
+            let small = doc.nodes() < 3000;
+            if round == 0 && small && matches!(path, JPath::Steps(_)) {
                 // the same path written without the leading `$` (`a.b`, `[0].a`, `:a`): the relations
                 // between the modes and the existence test hold for every path the parser accepts
                 let plain = refpath::render(&path, &refpath::PLAIN, &mut rng);
@@ -240,7 +243,7 @@ pub fn run(ctx: &mut Ctx) {
                     }
                 }
             }
-            if round == 2 && i % 2 == 0 && !refpath::has_arith(&path) {
+            if round == 2 && small && i % 2 == 0 && !refpath::has_arith(&path) {
                 let other = refcodec::encode(&crate::gen::derive(&doc, &mut rng));
                 let enc = refcodec::encode(&doc);
                 selector_reuse(ctx, &enc, &other, &text, &|| format!("path={:?} doc={}", text, doc.show()));
